@@ -382,7 +382,8 @@ class ASModel:
 
 def configure_solvers(coupled, nl="NLBGS_aitken", lin="Direct", atol=1e-8, lin_maxiter=None):
     if nl.startswith("NLBGS"):
-        coupled.nonlinear_solver = om.NonlinearBlockGS(use_aitken=(nl == "NLBGS_aitken"))
+        # NLBGS_resid: convergence judged on the true residuals (apply_nonlinear before the first sub-solve)
+        coupled.nonlinear_solver = om.NonlinearBlockGS(use_aitken=(nl in ("NLBGS_aitken", "NLBGS_resid")), use_apply_nonlinear=(nl == "NLBGS_resid"))
         coupled.nonlinear_solver.options["maxiter"] = 300
     elif nl == "Newton":
         coupled.nonlinear_solver = om.NewtonSolver(solve_subsystems=True)
